@@ -25,8 +25,33 @@ def d1(ctx, prog, lk):
             (ctx.ok if status == 'ok' else ctx.fail)('C12-D1', f'{f.key}::{norm(node)[:100]}', detail, f.where(node))
     for f, info in lk.factories.items():
         g = info['nested']
-        ctx.check(info['plain_lookup'], 'C12-D1', f'{g.key}::return', 'the vectorised lookup does not return table[x] for its argument x',
-                  'the vectorised lookup returns table[x]', g.where())
+        shape = info['plain_lookup']
+        b = info['builder']
+        fill = lk.builders[b]['fill']
+        # does the table extent depend on the declared values?
+        ext_dep = bool({n.id for n in ast.walk(fill.value) if isinstance(n, ast.Name)} & (set(b.params) | {
+            t.targets[0].id for t in ast.walk(b.node) if isinstance(t, ast.Assign) and isinstance(t.targets[0], ast.Name)
+            and ({x.id for x in ast.walk(t.value) if isinstance(x, ast.Name)} & set(b.params))}))
+        key = f'{g.key}::return'
+        if shape is None:
+            ctx.fail('C12-D1', key, 'the vectorised lookup does not return table[x] for its argument x (or the sentinel under a bound check)', g.where())
+        elif shape == 'guarded1':
+            ctx.fail('C12-D1', key, 'the lookup bounds its argument on one side only: values beyond the unchecked side wrap around / read outside '
+                                    'the table and are counted in a declared class instead of being ignored', g.where())
+        elif shape == 'plain' and ext_dep:
+            ctx.fail('C12-D1', key, 'the table extent depends on the declared values but the lookup is unguarded: undeclared values beyond the '
+                                    'extent (or negative ones, which wrap) address foreign entries', g.where())
+        else:
+            ctx.ok('C12-D1', key, 'the vectorised lookup returns table[x]' + (' under a two-sided bound check' if shape == 'guarded2' else
+                                                                               ' into a table whose extent does not depend on the declared values'), g.where())
+    funcs = list(lk.builders) + list(lk.factories) + [f for lst in lk.attrs.values() for f, st in lst]
+    uses = lut.order_destroyed_uses(prog, funcs)
+    for f, node, name, fn, how in uses:
+        ctx.fail('C12-D1', f'{f.key}::{norm(node)[:100]}', f'`{name}` is derived from the declared classes through `{fn}` (which forgets their order) and is '
+                                                          f'used as {how} while the lookup is built: two class lists with the same values in another order get the '
+                                                          f'same positions', f.where(node))
+    if not uses:
+        ctx.ok('C12-D1', 'lookup construction::order', f'no order-destroying function of the declared classes is used as key/iterable/argument in {len(funcs)} construction functions')
     # the lookup is applied to the data handed to _accumulate, on every accepted path
     allc, concrete = universe.distinguisher_classes(prog)
     done = set()
@@ -136,6 +161,12 @@ def index_kind(prog, lk, ci, func, idx, depth=0):
         return None, 'too deep'
     if isinstance(idx, ast.Name):
         rng = loop_range_of(func, idx.id)
+        if isinstance(rng, ast.Name):
+            # range(<local>): follow a local that is assigned exactly once
+            defs = [n.value for n in ast.walk(func.node) if isinstance(n, ast.Assign) and len(n.targets) == 1
+                    and isinstance(n.targets[0], ast.Name) and n.targets[0].id == rng.id]
+            if len(defs) == 1:
+                rng = defs[0]
         if rng is not None:
             if is_len_partitions(rng):
                 return 'ClassIndex', f'`{idx.id}` ranges over range(len(self.partitions))'
